@@ -177,6 +177,8 @@ fn collect_types_to_bind(
     let types_from_fields = |fields: &Punctuated<syn::Field, _>| -> Vec<(Type, bool)> {
         fields
             .iter()
+            // Skipped fields are not part of the type info and need no bound.
+            .filter(|field| !utils::should_skip(&field.attrs))
             // Fields encoded as another type are described by that type.
             .map(|f| {
                 let ty = utils::maybe_encoded_as(f).unwrap_or_else(|| f.ty.clone());
@@ -205,6 +207,8 @@ fn collect_types_to_bind(
         syn::Data::Enum(ref data) => data
             .variants
             .iter()
+            // Skipped variants are not part of the type info and need no bound.
+            .filter(|variant| !utils::should_skip(&variant.attrs))
             .flat_map(|variant| match &variant.fields {
                 syn::Fields::Named(syn::FieldsNamed { named: fields, .. })
                 | syn::Fields::Unnamed(syn::FieldsUnnamed {
